@@ -53,7 +53,25 @@ func recOfDump(d string) string {
 	return "rec " + strings.Join(out, ";")
 }
 
+// runMemRead: at most 6000 cases, a fresh shard every 1500 (the series index of one shard would
+// otherwise hold tens of thousands of measurements in the thorough tier).
 func runMemRead(c *hx.Ctx, r *hx.Rng, n int) error {
+	if n > 6000 {
+		n = 6000
+	}
+	for done := 0; done < n; done += 1500 {
+		k := n - done
+		if k > 1500 {
+			k = 1500
+		}
+		if err := runMemReadShard(c, r, done, k); err != nil {
+			return err
+		}
+	}
+	return nil
+}
+
+func runMemReadShard(c *hx.Ctx, r *hx.Rng, first, n int) error {
 	dir := engx.FastScratchDir("c02mem")
 	defer os.RemoveAll(dir)
 	sh, err := engine.VerifOpenShard(dir, 2)
@@ -63,7 +81,7 @@ func runMemRead(c *hx.Ctx, r *hx.Rng, n int) error {
 	defer sh.Close()
 	sh.DetachFromCompactor()
 	const span = 10
-	for k := 0; k < n; k++ {
+	for k := first; k < first+n; k++ {
 		mst := fmt.Sprintf("q%05d", k)
 		nRows := 1 + r.Intn(9)
 		var rows []engx.Row
